@@ -16,6 +16,10 @@ import (
 	"verifharness/mon"
 )
 
+// m3ViaConfiguration makes newM3Env build the reporter through m3.Configuration
+// where the options can be expressed that way (set per case by the caller).
+var m3ViaConfiguration bool
+
 // m3Env is one M3 reporter lifetime with its loopback sinks.
 type m3Env struct {
 	Sinks    []*mon.Sink
@@ -69,7 +73,15 @@ func newM3EnvPorts(nSinks int, opts m3.Options, inner func(int), lowPorts bool) 
 	e.Opts = opts
 	tally.VerifSetHook(e.hook)
 	e.TC0 = time.Now().UnixNano()
-	rep, err := m3.NewReporter(opts)
+	var rep m3.Reporter
+	var err error
+	if m3ViaConfiguration && opts.Protocol == m3.Compact && opts.HistogramBucketIDName == "" && opts.HistogramBucketName == "" {
+		// the same options expressed as the YAML-facing Configuration
+		rep, err = m3.Configuration{HostPorts: opts.HostPorts, Service: opts.Service, Env: opts.Env, CommonTags: opts.CommonTags, Queue: opts.MaxQueueSize,
+			PacketSize: opts.MaxPacketSizeBytes, IncludeHost: opts.IncludeHost, HistogramBucketTagPrecision: opts.HistogramBucketTagPrecision, InternalTags: opts.InternalTags}.NewReporter()
+	} else {
+		rep, err = m3.NewReporter(opts)
+	}
 	e.TC1 = time.Now().UnixNano()
 	if err != nil {
 		e.closeSinks()
